@@ -184,7 +184,11 @@ impl ProcessState {
                 tx
             };
 
+            #[cfg(feature = "verif")]
+            crate::verif::point("init.txn", if must_create { "create" } else { "open" });
             if e.runid.is_none() {
+                #[cfg(feature = "verif")]
+                crate::verif::point("init.runid", "insert");
                 tx.execute(
                     "insert into Runid values \
                         ((select max(id)+1 from Runid))",
@@ -198,6 +202,8 @@ impl ProcessState {
             }
 
             tx.commit().map_err(RedoError::opaque_error)?;
+            #[cfg(feature = "verif")]
+            crate::verif::point("init.commit", "");
         }
 
         Ok(ProcessState {
@@ -242,6 +248,10 @@ impl ProcessState {
         P::Item: ToSql,
     {
         self.wrote += 1;
+        #[cfg(feature = "verif")]
+        if self.wrote == 1 {
+            crate::verif::point("txn.firstwrite", &sql[..sql.len().min(24)].replace(' ', "_"));
+        }
         self.db.execute(sql, params)
     }
 }
@@ -257,6 +267,8 @@ impl<'a> ProcessTransaction<'a> {
             TransactionBehavior::Exclusive => "BEGIN EXCLUSIVE",
             _ => todo!(),
         };
+        #[cfg(feature = "verif")]
+        crate::verif::point("txn.begin", query);
         state
             .db
             .execute_batch(query)
@@ -305,6 +317,8 @@ impl<'a> ProcessTransaction<'a> {
             DropBehavior::Ignore => Ok(state),
             DropBehavior::Commit => match state.db.execute_batch("COMMIT") {
                 Ok(()) => {
+                    #[cfg(feature = "verif")]
+                    crate::verif::point("txn.commit", &format!("{}", state.wrote));
                     state.wrote = 0;
                     Ok(state)
                 }
@@ -315,6 +329,8 @@ impl<'a> ProcessTransaction<'a> {
                 }
             },
             DropBehavior::Rollback => {
+                #[cfg(feature = "verif")]
+                crate::verif::point("txn.rollback", &format!("{}", state.wrote));
                 state.wrote = 0;
                 state.db.execute_batch("ROLLBACK")?;
                 Ok(state)
@@ -1215,6 +1231,11 @@ impl Lock {
                 &fid_flock(libc::F_WRLCK as c_short, self.fid).map_err(RedoError::opaque_error)?,
             ),
         );
+        #[cfg(feature = "verif")]
+        crate::verif::point(
+            "lock.try",
+            &format!("{} {}", self.fid, if result.is_ok() { 1 } else { 0 }),
+        );
         match result {
             Ok(_) => {
                 self.owned = true;
@@ -1233,18 +1254,24 @@ impl Lock {
             LockType::Exclusive => libc::F_WRLCK as c_short,
             LockType::Shared => libc::F_RDLCK as c_short,
         };
+        #[cfg(feature = "verif")]
+        crate::verif::point("lock.wait.begin", &format!("{} {}", self.fid, fcntl_type));
         fcntl::fcntl(
             self.manager.file.as_raw_fd(),
             FcntlArg::F_SETLKW(&fid_flock(fcntl_type, self.fid).map_err(RedoError::opaque_error)?),
         )
         .map_err(RedoError::opaque_error)?;
         self.owned = true;
+        #[cfg(feature = "verif")]
+        crate::verif::point("lock.wait.end", &format!("{}", self.fid));
         Ok(())
     }
 
     /// Release the lock, which we must currently own.
     pub fn unlock(&mut self) -> Result<(), RedoError> {
         assert!(self.owned, "can't unlock {} - we don't own it", self.fid);
+        #[cfg(feature = "verif")]
+        crate::verif::point("lock.unlock", &format!("{}", self.fid));
         fcntl::fcntl(
             self.manager.file.as_raw_fd(),
             FcntlArg::F_SETLK(
